@@ -292,7 +292,29 @@ def check_isolated_one(item):
     return [('in a fresh process, after %r (debug=%s): %s' % (h, d, t), None, w, g) for (_, _, _, w, g) in check_isolated([(h, t, d)])]
 
 
-CHECKERS = {'reentrant': check_reentrant, 'history': check_history, 'mutation': check_mutation, 'retention': check_retention,
+def check_cross(_):
+    """the outcome depends on the bindings of THAT parser: what is registered on another live parser (before or after this
+    one was built) changes nothing"""
+    import hotxlfp
+    out = []
+    a = hotxlfp.Parser()
+    forms = ['DOUBLE(4)', 'SUM(1,2)', 'extra', 'TRUE', 'MAX(DOUBLE(1),2)']
+    before = [outcome(a, f) for f in forms]
+    b = hotxlfp.Parser()
+    b.set_function('DOUBLE', lambda x: 2 * x)
+    b.set_function('SUM', lambda *x: 'shadowed')
+    b.set_variable('extra', 9)
+    b.set_variable('TRUE', 'no')
+    [outcome(b, f) for f in forms]
+    after = [outcome(a, f) for f in forms]
+    c = hotxlfp.Parser()
+    fresh = [outcome(c, f) for f in forms]
+    if after != before or fresh != before:
+        out.append(('functions / variables registered on another parser in between (%r)' % (forms,), None, repr(before), repr((after, fresh))))
+    return out
+
+
+CHECKERS = {'cross': check_cross, 'reentrant': check_reentrant, 'history': check_history, 'mutation': check_mutation, 'retention': check_retention,
             'isolated': check_isolated_one}
 
 
@@ -381,7 +403,7 @@ def explore(ctx):
             work.append(('history', ([a], b, False)))
     for b in GOOD + BAD:
         work.append(('history', ([], b, True)))
-    work += [('reentrant', f) for f in REENTRANT]
+    work += [('reentrant', f) for f in REENTRANT] + [('cross', 0)]
     muts = all_functions_on_lists()
     work += [('mutation', f) for f in muts]
     reps = [100, 100, 200] if big else [40, 40, 80]
@@ -452,7 +474,7 @@ def search(ctx, proof, res):
     for i in range(1500):
         hist = [rng.choice(GOOD + BAD + BAD) for _ in range(rng.choice([1, 2, 5, 20]))]
         work.append(('history', (hist, rng.choice(GOOD + BAD), rng.random() < 0.5)))
-    work += [('mutation', f) for f in all_functions_on_lists()] + [('reentrant', f) for f in REENTRANT]
+    work += [('mutation', f) for f in all_functions_on_lists()] + [('reentrant', f) for f in REENTRANT] + [('cross', 0)]
     for fs in (['1/0'], ['NOPE()'], ['BOOM()'], ['XL()'], ['1+'], BAD):
         work.append(('retention', (fs, [40, 40, 80])))
     for (k, c), vs in zip(work, pmap(_worker, work, limit=120.0, confirm=False)):
